@@ -1,12 +1,15 @@
 package main
 
 import (
+	"errors"
 	"context"
 	"fmt"
 	"strings"
 	"time"
 
 	sql2 "seata.apache.org/seata-go/pkg/datasource/sql"
+	"seata.apache.org/seata-go/pkg/datasource/sql/datasource"
+	"seata.apache.org/seata-go/pkg/protocol/branch"
 
 	"verifharness/memdb"
 )
@@ -26,6 +29,11 @@ var c17CancelKinds = []string{
 	"auto-cancel-before",        // an auto-commit statement under a context that is cancelled already
 	"explicit-slow",             // nothing fails: a local transaction that takes longer than the two-phase hold time
 	"explicit-expired",          // a local transaction that takes longer than the execution timeout of a branch: refused at its commit
+	"auto-rollback-fails",       // the statement fails and so does the XA ROLLBACK that follows: the branch is NOT known to be rolled back
+	"explicit-rollback-fails",   // the same in a local transaction the application rolls back
+	"auto-end-fails",            // the statement fails and XA END(TMFAIL) fails: the branch is still ACTIVE on the session
+	"pinned-prepared-then-slow", // (pinned connection) a prepared branch, then a local transaction of 1.6 s on the same session
+	"start-fails",               // XA START is refused: no branch came to be, nothing is kept for it
 }
 
 func runC17Cancelled(c *Ctx) {
@@ -39,28 +47,43 @@ func runC17Cancelled(c *Ctx) {
 			}
 			table := w.NewTableName("xag")
 			w.Eng.CreateTable(memdb.TableDef{Name: table, Cols: []memdb.Column{{Name: "id", Type: memdb.TBigInt}, {Name: "n", Type: memdb.TBigInt, Nullable: true}}, PK: []string{"id"}})
-			w.Eng.InsertRows(table, memdb.Row{int64(1), int64(0)}, memdb.Row{int64(2), int64(0)})
+			w.Eng.InsertRows(table, memdb.Row{int64(1), int64(0)}, memdb.Row{int64(2), int64(0)}, memdb.Row{int64(3), int64(0)})
 			nextID := 1
 			if kind == "explicit-slow" {
 				nextID = 2 // (row 1 belongs to the prepared branch)
+			}
+			if kind == "pinned-prepared-then-slow" {
+				if !viaConn {
+					continue
+				}
+				nextID = 3 // (rows 1 and 2 belong to prepared branches)
 			}
 			w.coord.ResetLog()
 			w.Eng.ResetJournal()
 			q := "UPDATE " + table + " SET n = 7 WHERE id = ?"
 			var firstErr, nextErr error
+			// a branch that could not be rolled back is not reported as failed: the application gives up, the
+			// coordinator rolls every branch back (and asks again for the one that is not known to be gone)
+			globalRollback := strings.Contains(kind, "rollback-fails") || kind == "auto-end-fails"
 			untold := false
 			var xid string
 			crash := safeCall(func() {
 				xid, _ = InGlobalTx(cid, func(ctx context.Context) error {
+					// (nothing here may wait for ever: a pool exhausted by connections an earlier case lost is a finding
+					// of that case, not a reason to hang)
+					ctx, stop := context.WithTimeout(ctx, 15*time.Second)
+					defer stop()
 					first := func() {
 						begin := xa.BeginTx
 						exec := xa.ExecContext
 						if viaConn {
-							conn, cerr := xa.Conn(ctx)
+							actx, acancel := context.WithTimeout(ctx, 5*time.Second)
+							conn, cerr := xa.Conn(actx)
+							acancel()
 							if cerr != nil {
-								panic(cerr)
+								panic(fmt.Sprintf("no connection to be had from the pool: %v (in use: %d)", cerr, xa.Stats().InUse))
 							}
-							defer conn.Close()
+							defer closeSoon(conn)
 							begin, exec = conn.BeginTx, conn.ExecContext
 						}
 						switch kind {
@@ -143,6 +166,54 @@ func runC17Cancelled(c *Ctx) {
 								}
 							}
 							return
+						case "auto-rollback-fails":
+							w.Eng.AddFault(memdb.Fault{Kind: "update", Table: table, Nth: 1})
+							w.Eng.AddFault(memdb.Fault{Kind: "xa_rollback", Nth: 1})
+							_, firstErr = exec(ctx, q, 1)
+							return
+						case "auto-end-fails":
+							w.Eng.AddFault(memdb.Fault{Kind: "update", Table: table, Nth: 1})
+							w.Eng.AddFault(memdb.Fault{Kind: "xa_end", Nth: 1})
+							_, firstErr = exec(ctx, q, 1)
+							return
+						case "start-fails":
+							w.Eng.AddFault(memdb.Fault{Kind: "xa_start", Nth: 1})
+							_, firstErr = exec(ctx, q, 1)
+							return
+						case "explicit-rollback-fails":
+							tx, err := begin(ctx, nil)
+							if err != nil {
+								firstErr = err
+								return
+							}
+							w.Eng.AddFault(memdb.Fault{Kind: "update", Table: table, Nth: 1})
+							w.Eng.AddFault(memdb.Fault{Kind: "xa_rollback", Nth: 1})
+							_, firstErr = tx.ExecContext(ctx, q, 1)
+							tx.Rollback()
+							return
+						case "pinned-prepared-then-slow":
+							if !viaConn {
+								firstErr = errors.New("(not applicable on a pooled handle)")
+								return
+							}
+							if _, firstErr = exec(ctx, "UPDATE "+table+" SET n = 5 WHERE id = ?", 2); firstErr != nil {
+								return
+							}
+							tx, err := begin(ctx, nil)
+							if err != nil {
+								firstErr = err
+								return
+							}
+							if _, firstErr = tx.ExecContext(ctx, q, 1); firstErr == nil {
+								time.Sleep(1600 * time.Millisecond)
+								if _, firstErr = tx.ExecContext(ctx, "UPDATE "+table+" SET n = n + 1 WHERE id = ?", 1); firstErr == nil {
+									firstErr = tx.Commit()
+								}
+							}
+							if firstErr != nil {
+								tx.Rollback()
+							}
+							return
 						case "auto-cancel-before":
 							cctx, cancel := context.WithCancel(ctx)
 							cancel()
@@ -156,6 +227,9 @@ func runC17Cancelled(c *Ctx) {
 					nctx, ncancel := context.WithTimeout(ctx, 3*time.Second)
 					defer ncancel()
 					_, nextErr = xa.ExecContext(nctx, "UPDATE "+table+" SET n = 9 WHERE id = ?", nextID)
+					if globalRollback {
+						return errors.New("the application gives the transaction up")
+					}
 					return nil
 				})
 			})
@@ -164,7 +238,21 @@ func runC17Cancelled(c *Ctx) {
 			reported := w.coord.ReportedFailed(xid)
 			for _, b := range w.coord.RegisteredBranches(xid) {
 				if !reported[b.BranchID] {
-					w.coord.CommitBranch(w.coord.LastSession(), b, 3*time.Second)
+					if globalRollback {
+						w.coord.RollbackBranch(w.coord.LastSession(), b, 3*time.Second)
+					} else {
+						w.coord.CommitBranch(w.coord.LastSession(), b, 3*time.Second)
+					}
+				}
+			}
+			// what the data source still keeps for this transaction's branches
+			var stillKept []string
+			for _, b := range w.coord.RegisteredBranches(xid) {
+				if v, ok := datasource.GetDataSourceManager(branch.BranchTypeXA).GetCachedResources().Load(b.ResourceID); ok {
+					id := fmt.Sprintf("%s-%d", xid, b.BranchID)
+					if _, kept := v.(*sql2.DBResource).Lookup(id); kept {
+						stillKept = append(stillKept, id)
+					}
 				}
 			}
 			var toks []string
@@ -174,8 +262,8 @@ func runC17Cancelled(c *Ctx) {
 				if tok == "" {
 					continue
 				}
-				if tok == "C" || tok == "R" {
-					finished[xaIDOf(e.SQL)]++
+				if (tok == "C" || tok == "R") && (e.Err == "" || !globalRollback) {
+					finished[xaIDOf(e.SQL)]++ // (where the harness makes XA ROLLBACK fail, the repetition is the point)
 				}
 				if e.Err != "" {
 					tok += "!"
@@ -192,7 +280,7 @@ func runC17Cancelled(c *Ctx) {
 			if crash != "" {
 				fail("crash", crash)
 			}
-			if kind == "explicit-slow" {
+			if kind == "explicit-slow" || kind == "pinned-prepared-then-slow" {
 				if firstErr != nil {
 					fail("error_without_fault", firstErr.Error())
 				}
@@ -219,8 +307,15 @@ func runC17Cancelled(c *Ctx) {
 			if untold {
 				fail("cause_of_failure_not_returned", firstErr.Error())
 			}
+			if len(stillKept) > 0 {
+				fail("finished_or_failed_branch_still_kept", fmt.Sprint(stillKept))
+			}
 			if nextErr != nil {
 				fail("next_statement_refused", nextErr.Error())
+			} else if globalRollback {
+				if final != "i1,i0;i2,i0;i3,i0" {
+					fail("global_rollback_not_applied", final)
+				}
 			} else if !strings.Contains(final, fmt.Sprintf("i%d,i9", nextID)) {
 				fail("next_statement_lost", final)
 			}
